@@ -3,3 +3,4 @@ from pyvc import speclib  # noqa: F401
 from . import schema      # noqa: F401
 from . import payload     # noqa: F401
 from . import coord_payload  # noqa: F401
+from . import fiber  # noqa: F401
